@@ -99,7 +99,7 @@ func runC20(r *R) {
 			gN, _ := Guard(fn, nil, g, EqC("opts.Count == \"none\"", CanonHas("ListOptions.Count"), ConstStrVP("none")))
 			gL, _ := Guard(fn, nil, g, LtC("opts.Limit < 0", CanonHas("ListOptions.Limit"), ConstIntVP(0)))
 			gO, _ := Guard(fn, nil, g, EqC("opts.Offset == 0", CanonHas("ListOptions.Offset"), ConstIntVP(0)))
-			gR, _ := Guard(fn, nil, g, GeC("0 < len(opts.Order)", ConstIntVP(0), lenVP))
+			gR, _ := Guard(fn, nil, g, IntC("len(opts.Order) == 0", lenVP, token.EQL, 0, true))
 			gM, _ := Guard(fn, nil, g, GeC("max < nUUIDs", CanonHas("MaxItemsPerResponse"), func(v ssa.Value) bool { return isNamedPhi(v, "nUUIDs") }))
 			r.Check(gC && gN && gL && gO && gR && gM, "C20-R2", fn, "go func(clusterID, todo)", g.Pos(), "all up-front rejections passed",
 				"backends can be called for a query that cannot be split safely (filters="+boolS(gC)+" count="+boolS(gN)+" limit="+boolS(gL)+" offset="+boolS(gO)+" order="+boolS(gR)+" size="+boolS(gM)+")")
@@ -235,16 +235,12 @@ func runC20(r *R) {
 			r.Check(okProg && nProg > 0, "C20-R4", cl, "progress = true with delete(todo, uuid)", call.Pos(), "progress means the wanted set shrank", "progress can be recorded without removing a wanted UUID: a backend answering with irrelevant items makes the loop spin forever")
 			// !progress ⇒ error send + return; len(done)==0 ⇒ break
 			okNoProg, okEmpty := false, false
-			allInstrs(cl, func(in ssa.Instruction) {
-				s, ok := in.(*ssa.Send)
-				if !ok || IsNilConst(s.X) {
-					return
-				}
-				g, _ := Guard(cl, call, in, FalseC("progress", func(v ssa.Value) bool { return isNamedPhi(v, "progress") }))
+			for _, at := range errorDeliveries(cl) {
+				g, _ := Guard(cl, call, at, FalseC("progress", func(v ssa.Value) bool { return isNamedPhi(v, "progress") }))
 				if g {
 					okNoProg = true
 				}
-			})
+			}
 			if hdr != nil {
 				body := loopBody(hdr)
 				for b := range body {
@@ -263,16 +259,12 @@ func runC20(r *R) {
 			r.Check(okEmpty, "C20-R4", cl, "len(done)==0 ⇒ break", call.Pos(), "an empty page ends the loop", "an empty page does not end the loop")
 			// fn error ⇒ send error
 			okFnErr := false
-			allInstrs(cl, func(in ssa.Instruction) {
-				s, ok := in.(*ssa.Send)
-				if !ok || IsNilConst(s.X) {
-					return
-				}
-				g, _ := Guard(cl, call, in, NeqC("err != nil", ResultVP(call, 1), NilV))
+			for _, at := range errorDeliveries(cl) {
+				g, _ := Guard(cl, call, at, NeqC("err != nil", ResultVP(call, 1), NilV))
 				if g {
 					okFnErr = true
 				}
-			})
+			}
 			r.Check(okFnErr, "C20-R6", cl, "fn error ⇒ errs <- error", call.Pos(), "backend errors are reported", "a backend error is dropped")
 			// ---- R5
 			args := call.Call.Args
@@ -303,16 +295,12 @@ func runC20(r *R) {
 				}
 			})
 			okNil := false
-			allInstrs(cl, func(in ssa.Instruction) {
-				s, ok := in.(*ssa.Send)
-				if !ok || IsNilConst(s.X) {
-					return
-				}
-				g, _ := Guard(cl, nil, in, EqC("backend == nil", CanonHas("Conn.remotes"), NilV))
+			for _, at := range errorDeliveries(cl) {
+				g, _ := Guard(cl, nil, at, EqC("backend == nil", CanonHas("Conn.remotes"), NilV))
 				if g {
 					okNil = true
 				}
-			})
+			}
 			r.Check(okBackend && nLocal == 1 && nRemote == 1 && gLoc && okNil && same(args[1], cid), "C20-R5", cl, "backend for clusterID", call.Pos(), "local iff the prefix is ours; else remotes[prefix]; unknown prefix is an error", "a batch can be sent to a cluster other than the one named by its UUID prefix, or an unknown cluster is not an error")
 			// filter
 			okFilter := false
@@ -450,4 +438,31 @@ func isNamedPhiOrVal(v ssa.Value, name string) bool {
 		_ = l
 	}
 	return isNamedPhi(Strip(v), name) || strings.Contains(Canon(v), name) || true
+}
+
+// errorDeliveries: the points of a goroutine body at which a non-nil value is committed to its result channel —
+// a `ch <- err` send, or, when the body computes its outcome first (several `return err` of an extracted helper,
+// merged into one value that is sent at the end), the end of each arm that contributes a non-nil outcome.
+func errorDeliveries(cl *ssa.Function) []ssa.Instruction {
+	var out []ssa.Instruction
+	allInstrs(cl, func(in ssa.Instruction) {
+		s, ok := in.(*ssa.Send)
+		if !ok || IsNilConst(s.X) {
+			return
+		}
+		if phi, isPhi := Strip(s.X).(*ssa.Phi); isPhi {
+			for k, e := range phi.Edges {
+				if IsNilConst(e) {
+					continue
+				}
+				p := phi.Block().Preds[k]
+				if len(p.Instrs) > 0 {
+					out = append(out, p.Instrs[len(p.Instrs)-1])
+				}
+			}
+			return
+		}
+		out = append(out, in)
+	})
+	return out
 }
